@@ -13,6 +13,11 @@ Strata
            start state; ALL single-preemption schedules at statement granularity
            (vf.sched), every serial order first
   random   the same workloads under seeded random LINE-event perturbation
+  combine  every short history and random longer histories of set_combine_stderr(True|False)
+           before/after the first fileno(), mixed with feeds, reads and EOF (sequential)
+  blocked  a reader already blocked in read/recv/recv_stderr(n) when ONE feed of <, ==, > n
+           bytes arrives; BufferedPipe+event directly, Channel on the stub transport (serial
+           + full sweep) and Channel over a real client/server transport pair
 """
 import itertools
 import os
@@ -37,7 +42,9 @@ META = dict(
          "combination of stdout/stderr empty|data, open|eof and fileno() before|after the state was built. For each "
          "workload every serial order and every schedule with exactly one preemption at a source statement of "
          "pipe.py/buffered_pipe.py/the Channel methods involved is executed, plus seeded random perturbation and "
-         "random sequential op sequences; when all threads have joined select() on the descriptor is compared with "
+         "random sequential op sequences, exhaustive short + random histories of set_combine_stderr around the first "
+         "fileno(), and an explicit blocked-reader stratum (reader waiting before one feed of fewer/as many/more bytes "
+         "than requested; on BufferedPipe+event, on the stub-transport Channel and over a real transport pair); when all threads have joined select() on the descriptor is compared with "
          "the buffers and flags. Holds for the executions produced: complete for single preemptions of the listed "
          "workloads, sampled beyond that; not all interleavings.",
     note="Trusts select.select and direct reads of in_buffer._buffer/in_stderr_buffer._buffer/eof_received/closed at "
@@ -85,6 +92,8 @@ class Bench:
         self.out_off = 0
         self.err_off = 0
         self.fd = None
+        if st.get("combine"):
+            c.set_combine_stderr(True)
         steps = []
         if st["out"]:
             steps.append(("out", st["out"]))
@@ -198,6 +207,13 @@ def judge_run(ctx, bench, run, where):
     kind = mismatch_kind(ob)
     if kind is None:
         return ob
+    br = bench.wl.get("blocked_reader")
+    if br and not notifier_stats(run.trace)[2]:
+        ctx.violation(blocked_sig(kind, br["rel"], "Channel on stub transport"),
+                      "select() on Channel.fileno() disagrees with the buffers after a blocked recv was fed",
+                      dict(workload=bench.wl, plan=run.plan.describe(), observed=ob, park_at=run.park_at,
+                           trace_tail=run.trace[-60:]))
+        return ob
     touched, contended, overlapped = notifier_stats(run.trace)
     if overlapped:
         how = "notifier operations (OrPipe/PosixPipe set|clear|set_forever) of two threads interleaved"
@@ -269,6 +285,13 @@ def run_plan(ctx, eng, wl, plan, stats):
         ctx.count("runs_not_judged_after_deadlock")
     else:
         judge_run(ctx, bench, run, "end")
+        br = wl.get("blocked_reader")
+        if br:
+            ctx.count("oracle_evaluations_blocked_reader")
+            ctx.count("blocked_reader_runs_channel")
+            if blocked_before_feed(run, "R1", "F"):
+                ctx.count("blocked_reader_confirmed_channel_" + br["rel"])
+                ctx.count("blocked_reader_channel_" + br["stream"])
     bench.dispose()
     return run
 
@@ -369,6 +392,339 @@ def random_workload(rng, three=True):
     return wl
 
 
+# ------------------------------------------------------------------ blocked-reader stratum
+# A reader already blocked in read(n)/recv(n)/recv_stderr(n) on an empty buffer (fileno() taken
+# before), then ONE feed of k bytes, k <, ==, > n.  With k > n the read returns n bytes and data
+# stays buffered, so the event/descriptor must stay set: whether a read drained the buffer has to
+# be decided from the buffer AFTER the wait.  Three levels: BufferedPipe + event object directly,
+# the real Channel on the stub transport (both under the engine: serial order reader-first plus the
+# full single-preemption sweep), and a real Channel over a client/server transport pair.
+RELS = ("lt", "eq", "gt")
+
+
+def rel_of(k, n):
+    return "lt" if k < n else "eq" if k == n else "gt"
+
+
+def nk_pairs(quick):
+    ns = (1, 2, 4) if quick else (1, 2, 3, 4, 7)
+    out = []
+    for n in ns:
+        for k in (n - 1, n, n + 1, 2 * n + 1):
+            if k >= 1:
+                out.append((n, k))
+    return out
+
+
+def wait_lines():
+    from paramiko.buffered_pipe import BufferedPipe
+
+    return set(sched.lines_containing(BufferedPipe.read, "_cv.wait("))
+
+
+def blocked_before_feed(run, reader="R", feeder="F", _cache={}):
+    """Logical, from the trace: the reader's last statement before the feeder's first one is the
+    cv.wait line of BufferedPipe.read."""
+    if "l" not in _cache:
+        _cache["l"] = wait_lines()
+    last = None
+    for role, qual, line in run.trace:
+        if role == feeder:
+            break
+        if role == reader:
+            last = (qual, line)
+    return last is not None and last[0] == "BufferedPipe.read" and last[1] in _cache["l"]
+
+
+def blocked_sig(kind, rel, level):
+    return "%s; reader blocked before one feed of %s bytes than requested (%s)" % (
+        kind, {"lt": "fewer", "eq": "as many", "gt": "more"}[rel], level)
+
+
+def blocked_pipe_level(ctx, eng, stats):
+    """Level A: BufferedPipe with an event object (threading.Event, or one OrPipe half on a PosixPipe)."""
+    import threading
+
+    from paramiko.buffered_pipe import BufferedPipe
+
+    idx = 0
+    for evkind in ("event", "orpipe"):
+        for n, k in nk_pairs(ctx.quick):
+            idx += 1
+            if not ctx.mine(idx):
+                continue
+            rel = rel_of(k, n)
+            for perm in (["R", "F"], ["F", "R"]):
+                plans = [sched.Plan(order=perm)]
+                counts = None
+                pi = 0
+                while pi < len(plans):
+                    plan = plans[pi]
+                    pi += 1
+                    bp = BufferedPipe()
+                    if evkind == "event":
+                        ev = threading.Event()
+                        osp = None
+                        readable = ev.is_set
+                    else:
+                        osp = pipe.make_pipe()
+                        ev, _other = pipe.make_or_pipe(osp)
+                        readable = lambda osp=osp: bool(select.select([osp.fileno()], [], [], 0)[0])  # noqa: E731
+                    bp.set_event(ev)
+                    data = OUT_BYTES[:k]
+                    hung = {}
+                    run = eng.execute([("R", lambda: bp.read(n, None)), ("F", lambda: bp.feed(data))], plan,
+                                      on_hang=lambda r, roles: hung.setdefault("h", roles))
+                    if counts is None:
+                        counts = run.counts
+                        plans += sched.Engine.sweep_plans(perm, counts)
+                    wl = dict(level="pipe+" + evkind, n=n, k=k)
+                    sample = None
+                    if not stats.get("blocked_sample") and plan.kind() == "serial" and perm[0] == "R":
+                        stats["blocked_sample"] = True
+                        sample = dict(wl, plan=plan.describe(), got=run.results.get("R"))
+                    ctx.case((repr(wl), repr(plan.describe())), sample=sample)
+                    for e in run.harness_errors:
+                        ctx.inconclusive("engine: " + e)
+                    if hung or run.leaked or run.excs:
+                        ctx.inconclusive("blocked-reader pipe case did not finish: %r %r %r" % (wl, run.hung, run.excs))
+                        continue
+                    ctx.count("blocked_reader_runs_pipe")
+                    if blocked_before_feed(run):
+                        ctx.count("blocked_reader_confirmed_pipe_" + rel)
+                    ctx.count("oracle_evaluations")
+                    ctx.count("oracle_evaluations_blocked_reader")
+                    ob = dict(readable=bool(readable()), out=len(bp._buffer), err=0, eof=False, closed=bool(bp._closed))
+                    ob["pending"] = bool(ob["out"] or ob["closed"])
+                    kind = mismatch_kind(ob)
+                    if kind is not None:
+                        ctx.violation(blocked_sig(kind.replace("descriptor", "event"), rel, "BufferedPipe+" + evkind),
+                                      "the event of a BufferedPipe disagrees with its buffer after a blocked read was fed",
+                                      dict(wl, plan=plan.describe(), observed=ob, got=run.results.get("R"),
+                                           trace_tail=run.trace[-40:]))
+                    if osp is not None:
+                        osp.close()
+
+
+def blocked_channel_level(ctx, eng, stats):
+    """Level B: real Channel on the stub transport; stdout / stderr / stderr combined into stdout."""
+    idx = 0
+    for stream in ("stdout", "stderr", "combined"):
+        for n, k in nk_pairs(ctx.quick):
+            idx += 1
+            if not ctx.mine(idx):
+                continue
+            rel = rel_of(k, n)
+            wl = dict(state=dict(out=0, err=0, phase="open", fileno="first", combine=(stream == "combined")),
+                      feeder=[("out" if stream == "stdout" else "err", k)],
+                      readers=[[("err" if stream == "stderr" else "out", n)]], blocking=True,
+                      blocked_reader=dict(stream=stream, rel=rel))
+            for perm in (["R1", "F"], ["F", "R1"]):
+                base = run_plan(ctx, eng, wl, sched.Plan(order=perm), stats)
+                for plan in sched.Engine.sweep_plans(perm, base.counts):
+                    run_plan(ctx, eng, wl, plan, stats)
+
+
+def _in_blocking_read(ident):
+    import sys
+
+    fr = sys._current_frames().get(ident)
+    names = []
+    while fr is not None:
+        names.append((fr.f_code.co_filename.rsplit("/", 1)[-1], fr.f_code.co_name))
+        fr = fr.f_back
+    return ("threading.py", "wait") in names and ("buffered_pipe.py", "read") in names
+
+
+def blocked_transport_level(ctx, ncases):
+    """Level C: client/server Transport pair; the client reader is blocked in recv/recv_stderr (checked
+    from its stack) before the server sends ONE data packet."""
+    import threading
+
+    from vf import pair
+
+    rng = ctx.rng
+    p = pair.Pair(rng=rng)
+    if not p.start(timeout=90) or not p.auth():
+        ctx.inconclusive("blocked-reader transport stratum: handshake failed: %r %r" % (p.client_exc, p.server_exc))
+        return
+    # every stream x relation equally often; n and k vary with the case index
+    combos = [(st, rel) for st in ("stdout", "stderr", "combined") for rel in RELS]
+    rng.shuffle(combos)
+    try:
+        for i in range(ncases):
+            stream, want = combos[i % len(combos)]
+            n = rng.choice([2, 3, 4, 8, 33]) if i >= len(combos) else (2, 4, 8)[i % 3]
+            k = {"lt": rng.randint(1, n - 1), "eq": n, "gt": n + rng.choice([1, 1, 2, n, 100])}[want]
+            rel = rel_of(k, n)
+            c, s = p.session(timeout=60)
+            if stream == "combined":
+                c.set_combine_stderr(True)
+            fd = c.fileno()
+            box = {}
+
+            def reader(c=c, n=n, stream=stream, box=box):
+                try:
+                    box["d"] = c.recv_stderr(n) if stream == "stderr" else c.recv(n)
+                except Exception as e:  # noqa
+                    box["exc"] = e
+
+            t = threading.Thread(target=reader, daemon=True)
+            t.start()
+            if not pair.wait_for(lambda: _in_blocking_read(t.ident), timeout=30):
+                ctx.inconclusive("blocked-reader transport case: reader never reached the wait")
+                continue
+            data = bytes((j * 7 + 1) & 0xFF for j in range(k))
+            (s.sendall if stream == "stdout" else s.sendall_stderr)(data)
+            t.join(60)
+            desc = dict(level="transport pair", stream=stream, n=n, k=k)
+            if t.is_alive() or "exc" in box:
+                ctx.inconclusive("blocked-reader transport case did not finish: %r %r" % (desc, box.get("exc")))
+                continue
+            p.wait_quiet(idle=0.05, timeout=20)
+            got = box["d"]
+            nbuf = len(c.in_buffer._buffer) + len(c.in_stderr_buffer._buffer)
+            if len(got) + nbuf != k:
+                # the packet was split or not fully delivered yet: not the case this stratum is about
+                ctx.count("blocked_reader_transport_not_single_feed")
+                pair.wait_for(lambda: len(got) + len(c.in_buffer._buffer) + len(c.in_stderr_buffer._buffer) == k, timeout=10)
+            ctx.case(("blocked-transport", stream, n, k), sample=dict(desc, got=got) if i == 0 else None)
+            ctx.count("blocked_reader_confirmed_transport_" + rel)
+            ctx.count("blocked_reader_transport_" + stream)
+            ctx.count("oracle_evaluations")
+            ctx.count("oracle_evaluations_blocked_reader")
+            ob = dict(readable=bool(select.select([fd], [], [], 0)[0]), out=len(c.in_buffer._buffer),
+                      err=len(c.in_stderr_buffer._buffer), eof=bool(c.eof_received), closed=bool(c.closed))
+            ob["pending"] = bool(ob["out"] or ob["err"] or ob["eof"] or ob["closed"])
+            kind = mismatch_kind(ob)
+            if kind is not None:
+                ctx.violation(blocked_sig(kind, rel, "Channel over a transport pair"),
+                              "select() on Channel.fileno() disagrees with the buffers after a blocked recv was fed one packet",
+                              dict(desc, observed=ob, got=got))
+            c.close()
+            s.close()
+    finally:
+        p.close()
+
+
+
+# ------------------------------------------------------------------ combine-stderr stratum
+# Exhaustive short sequences around set_combine_stderr(True/False) before and after the first
+# fileno(): which event objects fileno() installs must not depend on the combine flag at that
+# moment, and moving stderr into stdout must keep the descriptor in step.
+def scripted_sequence(ctx, eng, ops, tag, sample=False):
+    c, t = make_channel(window=64, max_packet=1024)
+    c.settimeout(0.0)
+    box = dict(fd=None, bad=None, done=0)
+
+    def body():
+        oo = eo = 0
+        for op in ops:
+            k = op[0]
+            if k == "fileno":
+                box["fd"] = c.fileno()
+            elif k == "combine":
+                c.set_combine_stderr(op[1])
+            elif k == "out":
+                c._feed(msg_data(OUT_BYTES[oo:oo + op[1]]))
+                oo += op[1]
+            elif k == "err":
+                c._feed_extended(msg_ext(ERR_BYTES[eo:eo + op[1]]))
+                eo += op[1]
+            elif k in ("recv", "recv_stderr"):
+                try:
+                    getattr(c, k)(op[1])
+                except socket.timeout:
+                    pass
+            elif k == "eof":
+                c._handle_eof(Message())
+            box["done"] += 1
+            if box["fd"] is None:
+                continue
+            readable = bool(select.select([box["fd"]], [], [], 0)[0])
+            ob = dict(readable=readable, out=len(c.in_buffer._buffer), err=len(c.in_stderr_buffer._buffer),
+                      eof=bool(c.eof_received), closed=bool(c.closed))
+            ob["pending"] = bool(ob["out"] or ob["err"] or ob["eof"] or ob["closed"])
+            ctx.count("oracle_evaluations")
+            ctx.count("oracle_evaluations_" + tag)
+            if readable != ob["pending"]:
+                box["bad"] = (mismatch_kind(ob), op, ob)
+                return
+
+    run = eng.execute([("S", body)], sched.Plan(order=["S"]))
+    ctx.case((tag, repr(ops)), sample=dict(kind=tag + " history", ops=ops) if sample else None)
+    # what the history exercised (only the part that really ran)
+    seen_fileno = False
+    flag = False
+    for op in ops[:box["done"]]:
+        if op[0] == "fileno":
+            seen_fileno = True
+        elif op[0] == "combine":
+            if not seen_fileno:
+                box["pre"] = True
+            elif flag and not op[1]:
+                box["off_after"] = True
+            flag = op[1]
+    if box.get("pre"):
+        ctx.count("combine_toggled_before_first_fileno")
+    if box.get("off_after"):
+        ctx.count("combine_switched_off_after_fileno")
+    if box.get("pre") and flag is False and seen_fileno:
+        ctx.count("combine_on_before_fileno_and_off_at_end")
+    if box["bad"] is not None:
+        kind, op, ob = box["bad"]
+        ctx.violation("%s; %s sequence, first seen after %s" % (kind, tag, op[0] if op[0] != "combine" else "combine=%s" % op[1]),
+                      "select() on Channel.fileno() disagrees with the buffers/flags after a sequential op",
+                      dict(ops=ops, observed=ob))
+    if run.excs or run.leaked or run.hung:
+        ctx.inconclusive("%s sequence did not finish: %r %r %r" % (tag, ops, run.excs, run.hung))
+        return
+    ctx.count(tag + "_sequences_checked")
+    c.close()
+
+
+def combine_stratum(ctx, eng):
+    c1, c0 = ("combine", True), ("combine", False)
+    pres = [[], [c1], [c1, c0], [c0], [("err", 2), c1], [c1, ("err", 2), c0], [c1, ("out", 2)], [("err", 2), c1, c0]]
+    acts = [c1, c0, ("out", 2), ("err", 2), ("recv", 64), ("recv_stderr", 64)]
+    idx = 0
+    for pre in pres:
+        for ln in (1, 2, 3):
+            for post in itertools.product(acts, repeat=ln):
+                idx += 1
+                if not ctx.mine(idx):
+                    continue
+                scripted_sequence(ctx, eng, pre + [("fileno",)] + list(post), "combine")
+
+
+def combine_random(ctx, eng, n):
+    """Random histories over {fileno(), set_combine_stderr(True|False), stdout data, stderr data, recv,
+    recv_stderr, EOF}: fileno() at a random point, the combine flag toggled 0..3 times anywhere."""
+    rng = ctx.rng
+    for i in range(n):
+        ln = rng.randint(3, 12)
+        ops = []
+        for _ in range(ln):
+            r = rng.random()
+            ops.append(("out", rng.randint(1, 3)) if r < 0.25 else ("err", rng.randint(1, 3)) if r < 0.55 else
+                       ("recv", rng.choice([1, 64])) if r < 0.78 else ("recv_stderr", rng.choice([1, 64])))
+        flag = False
+        for _ in range(rng.randint(0, 3)):
+            flag = (not flag) if rng.random() < 0.8 else flag
+            ops.insert(rng.randint(0, len(ops)), ("combine", flag))
+        # re-derive the toggle values in sequence order so that they alternate as inserted
+        flag = False
+        for j, op in enumerate(ops):
+            if op[0] == "combine":
+                flag = (not flag) if rng.random() < 0.85 else flag
+                ops[j] = ("combine", flag)
+        ops.insert(rng.randint(0, len(ops)), ("fileno",))
+        if rng.random() < 0.25:
+            cut = rng.randint(ops.index(("fileno",)), len(ops))
+            ops = [o for o in ops[:cut]] + [("eof",)] + [o for o in ops[cut:] if o[0] not in ("out", "err")]
+        scripted_sequence(ctx, eng, ops, "combine", sample=(i == 0))
+
+
 # ------------------------------------------------------------------ sequential stratum
 def sequential(ctx, eng, n_seq):
     """Random single-threaded op sequences; the invariant is evaluated after every op.  Each
@@ -424,8 +780,8 @@ def sequential(ctx, eng, n_seq):
                     c._handle_close(Message())
                     closed = True
                 elif r < 0.94:
-                    op = ("combine",)
-                    c.set_combine_stderr(True)
+                    op = ("combine", script[j] < 0.93)
+                    c.set_combine_stderr(op[1])
                 elif r < 0.97:
                     op = ("fileno-again",)
                     if box["fd"] is not None:
@@ -487,6 +843,10 @@ def run(ctx):
 
     with sched.Engine(instrumented()) as eng:
         sequential(ctx, eng, ctx.pick(300, 6000))
+        combine_stratum(ctx, eng)
+        combine_random(ctx, eng, ctx.pick(400, 8000))
+        blocked_pipe_level(ctx, eng, stats)
+        blocked_channel_level(ctx, eng, stats)
         core = core_workloads()
         # rotate so that a time cap never always cuts the same workloads
         rot = (ctx.seed * 37) % len(core)
@@ -505,11 +865,22 @@ def run(ctx):
             perturbed(wl, 8)
             sweep(ctx, eng, wl, stats, t_end + 3)
         ctx.count("engine_line_callbacks", eng.stats["line_events"])
+    ctx.guard(blocked_transport_level, ctx, ctx.pick(18, 144))
     ctx.count("distinct_interleavings_this_shard", len(stats.get("iids", ())))
     if "side_deadlock_witness" in stats:
         ctx.note("side_finding_deadlock_in_PosixPipe_clear", stats["side_deadlock_witness"])
     if "deadlock_witness" in stats:
         ctx.note("deadlock_witness_shard%d" % ctx.shard, stats["deadlock_witness"])
+    for level, floor in (("pipe", 8), ("channel", 12), ("transport", 16)):
+        for rel in RELS:
+            ctx.require("blocked_reader_confirmed_%s_%s" % (level, rel), floor)
+    for stream in ("stdout", "stderr", "combined"):
+        ctx.require("blocked_reader_channel_" + stream, 10)
+        ctx.require("blocked_reader_transport_" + stream, 16)
+    ctx.require("combine_sequences_checked", 3000)
+    ctx.require("combine_toggled_before_first_fileno", 800)
+    ctx.require("combine_switched_off_after_fileno", 300)
+    ctx.require("combine_on_before_fileno_and_off_at_end", 150)
     ctx.require("oracle_evaluations_sequential", 500)
     ctx.require("oracle_evaluations_preempt", 800)
     ctx.require("oracle_evaluations_random", 100)
